@@ -556,6 +556,8 @@ class World:
                     raise self.err_of(f"body:{name}:{len(self.events)}")
                 if how == "BaseE":
                     raise self.err_of(f"bodybase:{name}:{len(self.events)}", Base)
+                if how == "C":
+                    raise asyncio.CancelledError()      # the body's own (a timeout around it, a cancelled await inside it)
                 raise ValueError(how)
             elif k == "spawn":
                 child = op[1]
